@@ -116,6 +116,8 @@ def big_endian_digits_to_int(digits: Iterable[int], *, base: int | Iterable[int]
     for d, b in zip(digits, base):
         if not (0 <= d < b):
             raise ValueError(f'Out of range digit. Digit: {d!r}, base: {b!r}')
+        # Use Python ints so that numpy digits or bases cannot overflow a fixed-width accumulator.
+        d, b = int(d), int(b)
         result *= b
         result += d
     return result
@@ -169,7 +171,7 @@ def big_endian_int_to_digits(
         >>> cirq.big_endian_int_to_digits(11, base=[2, 3, 4])
         [0, 2, 3]
     """
-    if digit_count and base == 2:
+    if digit_count and isinstance(base, int) and base == 2:
         binary_chars = bin(val).removeprefix('0b')
         zeros_count = digit_count - len(binary_chars)
         if zeros_count >= 0:
